@@ -2,6 +2,7 @@
 mod common;
 mod refdual;
 mod spec;
+mod bspline;
 mod curvemodel;
 mod calmodel;
 mod progs;
